@@ -334,6 +334,8 @@ def cargo_build(crate_dir, toolchain=None, timeout=1800, check_only=False, targe
         except Exception:
             continue
         if m.get("reason") == "compiler-message":
+            if "/work/probes/" not in m.get("package_id", "") and "probes" not in m.get("manifest_path", ""):
+                continue      # a warning of a dependency (e.g. of derive_more-impl itself) is not a verdict on a case
             msg = m["message"]
             spans = msg.get("spans") or []
             prim = [s for s in spans if s.get("is_primary")] or spans
@@ -562,7 +564,8 @@ def verdict_crate(name, cases, prelude="", toolchain=None, features=("full",), c
         if dg["level"] not in ("error", "warning"):
             continue
         hit = False
-        for ln in dg["all_lines"] or ([dg["line"]] if dg["line"] else []):
+        own_file = (dg.get("file") or "").startswith("src/")      # (a dependency's "src/.." paths are absolute or ../)
+        for ln in dg["all_lines"] or ([dg["line"]] if (dg["line"] and own_file) else []):
             if ln is None:
                 continue
             j = bisect.bisect_right(starts, ln) - 1
@@ -612,7 +615,8 @@ def run_case_crate(name, cases, prelude="", toolchain=None, features=("full",), 
             if dg["level"] != "error":
                 continue
             hit = False
-            for ln in dg["all_lines"] or ([dg["line"]] if dg["line"] else []):
+            own_file = (dg.get("file") or "").startswith("src/")
+            for ln in dg["all_lines"] or ([dg["line"]] if (dg["line"] and own_file) else []):
                 if ln is None:
                     continue
                 j = bisect.bisect_right(starts, ln) - 1
